@@ -275,7 +275,7 @@ def exact_fill_ops(level, blocks=1, extra=2):
 
 def special_layout(g, which):
     """Deterministic layouts that random histories reach rarely.  Returns (cfg, ops)."""
-    from harness.model import Cfg
+    from harness.model import Cfg, join
     r = g.rng
     if which.startswith('exact-fill'):
         cfg = Cfg(level=r.choice([1, 2, 3]), joliet=r.choice([None, 3]), udf=r.random() < 0.3)
@@ -327,7 +327,7 @@ def special_layout(g, which):
         if top == '/P/D':
             ops.append(mk('add_directory', '/P'))
         ops.append(mk('add_directory', top))
-        subs = [top + '/S1', top + '/S2', top + '/S1/T']
+        subs = [top + '/A0', top + '/S1', top + '/S2', top + '/S1/T']   # sorting before and after the files
         n = r.choice([60, 100, 150])
         files = [top + '/F%03d.;1' % k for k in range(n)]
         if which == 'shrink-subdir':
@@ -356,6 +356,45 @@ def special_layout(g, which):
             for f in order[keep:]:
                 ops.append({'op': 'rm_file', 'iso_path': f})
         return cfg, ops
+    if which == 'joliet-exact-fill':
+        # Joliet directory records (34 + 2 * characters bytes each, '.' and '..' 34) filling the
+        # last sector of a directory exactly, one record short of it, or one record over
+        cfg = Cfg(level=r.choice([1, 3]), joliet=r.choice([1, 2, 3]), rr=r.choice([None, '1.09']))
+        blocks = r.choice([1, 1, 2])
+        target = 2048 * blocks
+        used = 68
+        names = []
+        k = 0
+        while True:
+            a = r.choice([20, 40, 59, 60, 64])
+            if used + (34 + 2 * a) + 36 > target:
+                break
+            # records must not straddle a sector boundary: keep it simple, stay below the target
+            names.append('n%02d' % k + 'x' * (a - 3))
+            used += 34 + 2 * a
+            k += 1
+        rest = target - used
+        if rest >= 36 and (rest - 34) % 2 == 0 and (rest - 34) // 2 <= 64:
+            b_ = (rest - 34) // 2
+            names.append('z' * b_)
+        mode = r.choice(['exact', 'exact', 'spill', 'short'])
+        if mode == 'spill':
+            names.append('zz-extra')
+        elif mode == 'short' and names:
+            names.pop()
+        top_j = r.choice(['/jfill', '/'])
+        ops = []
+        if top_j != '/':
+            ops.append(dict({'op': 'add_directory', 'iso_path': '/JFILL', 'joliet_path': top_j}, **({'rr_name': 'jfill'} if cfg.rr else {})))
+        for j, nm in enumerate(names):
+            o = {'op': 'add_fp', 'cid': 8300 + j, 'length': r.choice([0, 9, 2048]), 'joliet_path': join(top_j, nm),
+                 'iso_path': ('/JFILL' if top_j != '/' else '') + '/J%03d.;1' % j}
+            if cfg.rr:
+                o['rr_name'] = 'j%03d' % j
+            ops.append(o)
+        if r.random() < 0.4:
+            ops.append({'op': 'add_directory', 'joliet_path': '/zdir-after'})
+        return cfg, ops
     if which == 'deep-reloc':
         # Rock Ridge relocation: directories to depth 8..12, same-named twins, custom relocation name
         from harness.props import c08
@@ -372,4 +411,4 @@ def special_layout(g, which):
 
 
 SPECIALS = ['exact-fill', 'udf-big-dir', 'udf-exact-fill', 'exact-fill-root', 'exact-fill-multi', 'exact-fill-spill',
-            'shrink-subdir', 'grow-subdir', 'deep-reloc']
+            'shrink-subdir', 'grow-subdir', 'deep-reloc', 'joliet-exact-fill']
